@@ -1079,6 +1079,7 @@ class Trace:
         self.filtered_elems = set()
         self.forward_pushed = False
         self.forward_regs = False
+        self.unfollowed_site = None
         self.two_phase = False
 
     # fields of Link that its Hash / PartialEq read
@@ -1516,6 +1517,17 @@ class Trace:
             if key not in eng.violations:
                 eng.violations[key] = {"rule": "GATE-8", "key": key[1], "msg": "forward targets are registered by the trace's passes but no pass queues them: objects behind them are not traced",
                                        "where": eng.where(0), "entry": eng.name, "path": []}
+        if getattr(self, "unfollowed_site", None) is not None and self.forward_pushed:
+            # the same walk queues a forward target on some paths and not on others, outside the visited-set guard: in the
+            # Forward arm the paths can only differ by what the walk over the (hash-ordered) tables has accumulated so far
+            key = ("ITER-3", "order-sensitive-queueing")
+            if key not in eng.violations:
+                try:
+                    where = eng.where(self.unfollowed_site)
+                except Exception:
+                    where = eng.where(0)
+                eng.violations[key] = {"rule": "ITER-3", "key": key[1], "msg": "a forward link's target is queued on some paths through the trace's table walk and skipped on others (outside the visited-set guard): which objects are traced then depends on what the walk has accumulated so far, i.e. on table order",
+                                       "where": where, "entry": eng.name, "path": []}
         if self.filtered_pass and self.any_expansion:
             missing = sorted(ALL_KINDS - {"2"} - self.reg_kinds)
             for k in missing:
@@ -1620,6 +1632,7 @@ class Trace:
                     self.forward_pushed = True
                 if kind == "0" and ("pushed", E) not in st.flags and E not in self.filtered_elems and not any(g[0] == "phase2" for g in st.flags):
                     eng.violate("GATE-8", "forward-target-not-followed", "a forward link's target is registered but never pushed to the worklist, so objects behind it are not traced", site, st)
+                    self.unfollowed_site = site
             if f[0] == "elem_acc_pending" and _is_next_site(f[1], site):
                 eng.violate("GATE-8", "overwrite-instead-of-accumulate", "a forward/loopback entry is created at 0/default but the entry's count is never added to it", site, st)
         return None
